@@ -69,6 +69,24 @@ def run(chk, replay=None):
                 a = q['headers']['Authorization']
                 if not a.startswith('Digest ') or atlaslib.PRIV in a:
                     chk.violate('Authorization header is not a digest response', dict(case, header=a[:120]), tags=['authheader'])
+    # key values as they come out of env files and copy-paste: surrounding blanks / newline, a leading dash; in every spelling the key stays inside the process
+    for pv in (' ' + atlaslib.PRIV, atlaslib.PRIV + '\n', '\t' + atlaslib.PRIV + ' ', '-' + atlaslib.PRIV, atlaslib.PRIV + '\r\n'):
+        for bname in ('digest_ok', 'host_401_echo', 'none'):
+            for supply in ('flags', 'env'):
+                world = dict({'cluster_st': 200, 'cluster_body': cluster_body}, **behaviours[bname])
+                r = atlaslib.run_cli(world, key_via=supply, flags=['-n'], priv=pv)
+                chk.count(); chk.nontriv(('keyspelling', pv, bname, supply)); chk.dist('key_spellings')
+                case = {'behaviour': bname, 'key_supplied_by': supply, 'key_value_form': repr(pv.replace(atlaslib.PRIV, '<KEY>')), 'rc': r['rc']}
+                artefacts = {'stdout': r['stdout'], 'stderr': r['stderr']}
+                for i, q in enumerate(r['requests']): artefacts['request[%d]' % i] = json.dumps(q).encode()
+                for k, v in r['outs'].items(): artefacts['output:' + k] = v
+                for k, v in r['tmp'].items(): artefacts['temp:' + k] = v
+                for name, data in artefacts.items():
+                    for f in secret_forms | forms(pv) | forms(pv.strip()):
+                        if f in data:
+                            chk.violate('the private key appears in an artefact', dict(case, artefact=name, form=f.decode('utf-8', 'replace')[:40], excerpt=data[max(0, data.find(f) - 80): data.find(f) + 60].decode('utf-8', 'replace')), tags=['privkey', name.split('[')[0].split(':')[0], 'keyspelling'])
+                            break
+    chk.streams.append({'stream': 'key values with surrounding blanks / newline / leading dash x behaviours x supply', 'cases': 30})
     # invocations that never reach the network but make the CLI talk: usage / help / flag errors with the key in flags or environment
     talk = [['--atlasLogStartDate', 'not-a-number'], ['--noSuchOption'], ['--help'], ['-h'], ['--atlasLogStartDate', '5'], ['--redactFieldsRegexp', '(unclosed'], ['extra-file-argument.log']]
     for extra in talk:
